@@ -220,6 +220,18 @@ def materialise(world, top, schedule=None):
     return root
 
 
+def normalise_shared_dbs(world):
+    """Platforms that name one database file see the same commands: the file's contents are those of the
+    last platform written. Make the data say so (a minimiser may have edited one of them)."""
+    last = {}
+    for p in world["platforms"]:
+        last[p["db"]] = p["entries"]
+    for p in world["platforms"]:
+        if p["entries"] is not last[p["db"]]:
+            p["entries"] = [dict(e) for e in last[p["db"]]]
+    return world
+
+
 def analysis_path(world):
     return world.get("analysis", "proj/db/analysis.toml")
 
